@@ -4,6 +4,7 @@ compiler's AST in the format of coq/Compiler/Show.v, and execution of the real c
 code under CPython with an effect log and a fault table."""
 import ast
 import signal
+import threading
 
 from lib import vlib
 
@@ -869,9 +870,29 @@ def model_eval_many(progs, whats):
     exprs = []
     for w in whats:
         exprs += _model_exprs(progs, w)
-    # starting coqc and loading the libraries costs more than evaluating some hundred cases: few, large shards
-    shard = max(400, -(-len(exprs) // 4))
-    res = vlib.coq_eval(IMPORTS, "Open Scope string_scope.", exprs, tag="cmp", shard=shard)
+    # starting coqc and loading the libraries costs more than evaluating some hundred cases: few, large chunks.
+    # Each chunk is one coq_eval call of its own (one coqc whose output is read while it runs), in a thread.
+    k = max(1, min(6, len(exprs) // 300))
+    size_ = -(-len(exprs) // k)
+    chunks = [exprs[i:i + size_] for i in range(0, len(exprs), size_)] or [[]]
+    outs = [None] * len(chunks)
+
+    def work(i):
+        try:
+            outs[i] = vlib.coq_eval(IMPORTS, "Open Scope string_scope.", chunks[i], tag="cmp%d" % i, timeout=1500,
+                                    shard=max(1, len(chunks[i])))
+        except BaseException as ex:      # re-raised in the caller's thread
+            outs[i] = ex
+    threads = [threading.Thread(target=work, args=(i,)) for i in range(len(chunks))]
+    for t in threads:
+        t.start()
+    for t in threads:
+        t.join()
+    res = []
+    for o in outs:
+        if isinstance(o, BaseException):
+            raise o
+        res += o
     res = [r.strip().strip('"') for r in res]
     n = len(progs)
     return [res[i * n:(i + 1) * n] for i in range(len(whats))]
